@@ -18,6 +18,7 @@ RULE += (
 RULE += (
          'Second summarised variable asked interleaved; fixed lists '
          'under every option x name x order x kind. ')
+RULE += ('Round 9: plain value sequences summarised as item. ')
 ASSUMPTIONS = [
     'count, min, max exact; total exact for ints and within tolerance for '
     'floats; mean within 1e-9*(1+mean square), variance / variance-n within '
